@@ -76,7 +76,9 @@ def main(args):
                 gated.append({"schedule": s, "workspace": ws})
         js = run.tlc_simulate_many("ClientStream", scfg(60), 48 if not thorough else 600, 61, procs=6)
         streams = []
-        js = sorted(js, key=lambda c: json.dumps(c, sort_keys=True))[:(400 if not thorough else 6000)]
+        js = sorted(js, key=lambda c: json.dumps(c, sort_keys=True))
+        run.rng.shuffle(js)
+        js = js[:(400 if not thorough else 6000)]
         for i, c in enumerate(js):
             streams.append({"ops": c["ops"], "workspace": i % 2 == 0, "seed": run.seed * 100003 + i})
     if os.environ.get("C14_ONLY") == "gated":
